@@ -284,5 +284,44 @@ def oracles(ctx, deep):
             if v.key() not in seen:
                 seen.add(v.key())
                 out.append(v)
+    # training batches come from a single member of the concatenated dataset, on every rank
+    import direct.data.samplers as S
+    from direct.utils import communication
+
+    class D:
+        def __init__(self, n):
+            self.n = n
+
+        def __len__(self):
+            return self.n
+
+    for _ in range(ctx.n(150, 1500) * (3 if deep else 1)):
+        sizes = [ctx.rng.randint(1, 7) for _ in range(ctx.rng.randint(1, 5))]
+        bs = ctx.rng.randint(1, 5)
+        world = ctx.rng.choice([1, 2, 2, 3, 4])
+        rank = ctx.rng.randrange(world)
+        old = (communication.get_rank, communication.get_world_size)
+        communication.get_rank = lambda: rank
+        communication.get_world_size = lambda: world
+        runs += 1
+        try:
+            cs = S.ConcatDatasetBatchSampler([D(n) for n in sizes], bs, seed=ctx.rng.randrange(1000))
+            cum = [sum(sizes[: i + 1]) for i in range(len(sizes))]
+            for _b in range(12):
+                batch = [int(i) for i in next(cs)]
+                members = {next(m for m, c in enumerate(cum) if i < c) if 0 <= i < cum[-1] else -1 for i in batch}
+                if len(members) != 1 or -1 in members or len(batch) > bs:
+                    v = Violation("concat-single-member", "training batch %s spans members %s of a concatenated dataset with sizes %s (world %d, rank %d, batch size %d)" % (batch, sorted(members), sizes, world, rank, bs), {"sizes": sizes, "world": world, "rank": rank, "bs": bs, "batch": batch}, {"kind": "concat"})
+                    if v.key() not in seen:
+                        seen.add(v.key())
+                        out.append(v)
+                    break
+        except Exception as e:  # noqa
+            v = Violation("concat-single-member", "ConcatDatasetBatchSampler raises %s for sizes %s world %d rank %d" % (type(e).__name__, sizes, world, rank), {"sizes": sizes, "world": world, "rank": rank, "bs": bs}, {"kind": "concat-raises"})
+            if v.key() not in seen:
+                seen.add(v.key())
+                out.append(v)
+        finally:
+            communication.get_rank, communication.get_world_size = old
     ctx.oracle_runs = runs
     return out
